@@ -205,6 +205,35 @@ def static_disjoint():
     return n, vs
 
 
+def ctor_exclusive(tkey):
+    """Constructor keywords: whatever combination of two mutually exclusive options is requested, the module never
+    ends up with both on — live and after save/load."""
+    import rv.api as rv
+
+    t = spec.types()[tkey]
+    vs = []
+    n = 0
+    for o in t.options:
+        for other in o.exclusive_of:
+            for va in (False, True):
+                for vb in (False, True):
+                    for order in (0, 1):
+                        n += 1
+                        kw = {o.name: va, other: vb} if order == 0 else {other: vb, o.name: va}
+                        case = {"type": tkey, "ctor_exclusive": [o.name, other]}
+                        try:
+                            m = cls_of(tkey)(**kw)
+                        except Exception as e:
+                            vs.append(C.viol("ctor-raises", {"type": tkey, "exc": type(e).__name__}, {"kw": kw}, case))
+                            continue
+                        l = C.load_bytes(C.save(rv.Synth(m))).module
+                        for who, x in (("live", m), ("loaded", l)):
+                            if getattr(x, o.name) and getattr(x, other):
+                                vs.append(C.viol("exclusive-both-on", {"type": tkey, "pair": sorted([o.name, other]), "path": "constructor", "who": who},
+                                                 {"kw": {k: bool(v) for k, v in kw.items()}}, case))
+    return n, vs
+
+
 def bounded_sweep(tkey):
     vs = []
     n = 0
@@ -249,6 +278,8 @@ def run_case(case):
         return static_disjoint()[1]
     if case.get("bounded"):
         return bounded_sweep(case["bounded"])[1]
+    if case.get("ctor_exclusive"):
+        return ctor_exclusive(case["type"])[1]
     if case.get("second_generation"):
         return second_generation(case["type"], case["second_generation"][0])[1]
     return check_assignment(case["type"], [tuple(a) for a in case["assign"]])[0]
@@ -315,6 +346,9 @@ def _task(t):
         C.count(r, "second_generation", n)
         r["violations"] += vs[:10]
     elif kind == "bounded":
+        n2, vs2 = ctor_exclusive(t[1])
+        r["evals"] += n2
+        r["violations"] += vs2
         n, vs = bounded_sweep(t[1])
         r["evals"] += n
         r["violations"] += vs
